@@ -52,3 +52,16 @@ Ltac norm_exp0 :=
   | |- context [Rabs ?a] =>
       let H := fresh in assert (H : a = 0) by (first [ring | field; auto]); rewrite H, Rabs_R0; clear H
   end.
+
+(* in-kernel correspondence goals: |eval <concrete envs> <generated term> - <implementation value>| <= tol.
+   The generated term is normalised (Coq's own D is run by vm_compute), the concrete environments
+   (match on literal indices, if-chains over literal symbol/multi-index pairs) are reduced, and the
+   closed real inequality is left to `interval`. *)
+Ltac eval_corr_prepare :=
+  repeat match goal with
+  | |- context [eval ?v ?p ?f ?t] =>
+      let e := eval vm_compute in t in
+      progress change (eval v p f t) with (eval v p f e)
+  end;
+  cbn [eval map aeval];
+  cbv beta iota delta [Nat.eqb list_eqb andb nth].
